@@ -60,7 +60,10 @@ PROPS = {
                  "morphism_toposort is called under 4 new/old splits (batch=new, all new, all old, random disjoint split) and "
                  "compared with a DFS reference (Ok iff acyclic; exact multiset with correct ends; topological). A case is "
                  "non-trivial when some state has >= 2 morphisms with both ends; distinct = distinct fingerprints of the "
-                 "sequence of (graph, verdict) states."),
+                 "sequence of (graph, verdict) states. Model half: seeded C17 histories (both program families); the driver calls "
+                 "morphism_toposort on the model's six tables at every poll; a quarter of the histories get one extra morphism that "
+                 "closes a directed cycle (back edge or self-loop): a close that panics must carry the cycle report and the "
+                 "reference-closed asserted facts must be cyclic, a close that returns must leave an acyclic graph."),
         "real": RT_REAL,
         "stub": ["rtsim half: the close loop that produces the splits is replaced by the arrival schedule; modelsim half: nothing stubbed, the driver calls morphism_toposort on the model's actual six tables at every poll of seeded C17 histories"],
         "assumptions": [
@@ -75,7 +78,9 @@ PROPS = {
                  "error-test sources, the buildsim theory families): truncation at EVERY char boundary (exhaustive for base texts "
                  "up to the tier's size limit, seeded sample beyond), final newline stripped, CRLF on all / on a seeded subset of "
                  "lines, lone CR, BOM, torn overwrite (prefix of A + suffix of B at line boundaries), dropped / duplicated line, "
-                 "one char replaced by a 2-4 byte code point, NUL. Each image goes through the real eqlog::process (module build) "
+                 "one char replaced by a 2-4 byte code point, NUL, a line terminator unknown to str::lines (NEL, U+2028, U+2029, VT, FF), "
+                 "block-level storage faults at 64/512/4096 bytes (zeroed block, two blocks swapped, block written twice), zero-filled "
+                 "tail, truncation inside a trailing comment, tabs for leading blanks, blank / comment-only / BOM-only files. Each image goes through the real eqlog::process (module build) "
                  "with the rendering of the error inside catch_unwind. Non-trivial = any image other than the unmodified base; "
                  "distinct = distinct outcomes (hash of the rendered diagnostic, or of the generated module when accepted)."),
         "real": ["eqlog::process end to end (parser, semantic checks, error rendering, code generation) built from /repo's working tree",
